@@ -33,8 +33,8 @@ func ProcessFrundisSource(exp Exporter, filename string, unrestricted bool) erro
 	endParagraph(exp, ParBreakNormal)
 	closeUnclosedScopes(exp, scopeBlock)
 	s := ctx.scopes[scopeIf]
-	if len(s) > 0 {
-		warnUnclosedScope(exp, s[len(s)-1])
+	for i := len(s) - 1; i >= 0; i-- {
+		warnUnclosedScope(exp, s[i])
 	}
 	checkForUnclosedFormatBlock(exp)
 	checkForUnclosedDe(exp)
